@@ -1,4 +1,5 @@
 import XV.Model.Acl
+import XV.Model.AclTx
 import XV.Model.AclTree
 import XV.Drv.Util
 /-! line-protocol driver of the `acl` engine (op format: see go/cmd/acl/main.go) -/
@@ -22,8 +23,13 @@ def parseMember (s : String) : Option (Name × Int) :=
 def parseSet (s : String) : Option (List Name) :=
   if s == "0" then some [] else (s.splitOn "+").mapM parseName
 
+/-- what a lookup yields: an error (`E<k>`, k = the error text class, immaterial here), or the stored rule -/
+inductive PR where
+  | err
+  | rule (r : Option Rule)
+
 /-- `none` = malformed; `some none` = `N` (no ACL stored) -/
-def parseRule (s : String) : Option (Option Rule) :=
+def parseRule0 (s : String) : Option (Option Rule) :=
   if s == "N" then some none
   else if s.startsWith "T:" then
     match ((s.drop 2).toString).splitOn ":" with
@@ -40,24 +46,39 @@ def parseRule (s : String) : Option (Option Rule) :=
       pure (some (Rule.sets ss))
   else none
 
-def parseEnvEntry (s : String) : Option (Name × Option Rule) :=
+def parseRule (s : String) : Option PR :=
+  if s == "E0" || s == "E1" || s == "E2" || s == "E3" then some .err
+  else (parseRule0 s).map PR.rule
+
+def parseEnvEntry (s : String) : Option (Name × PR) :=
   match s.splitOn "=" with
   | n :: rest@(_ :: _) => do
     let n ← parseName n
     let r ← parseRule ("=".intercalate rest)
-    match n with
-    | .acct _ => pure (n, r)
-    | .key _ => none
+    match n, r with
+    | .acct _, _ => pure (n, r)
+    | .key _, .err => pure (n, r)
+    | .key _, _ => none
   | _ => none
 
-def envOf (es : List (Name × Option Rule)) : Env := fun n =>
+def envOf (es : List (Name × PR)) : Env := fun n =>
   match es.find? (fun e => decide (e.1 = n)) with
-  | some e => e.2
-  | none => none
+  | some (_, .rule r) => r
+  | _ => none
 
-def parseEnv (s : String) : Option Env := do
+def badOf (es : List (Name × PR)) : Name → Bool := fun n =>
+  match es.find? (fun e => decide (e.1 = n)) with
+  | some (_, .err) => true
+  | _ => false
+
+def nodupNames : List Name → Bool
+  | [] => true
+  | x :: xs => !xs.contains x && nodupNames xs
+
+/-- the rules and the names whose lookup answers an error; repeated entries are malformed -/
+def parseEnv (s : String) : Option (Env × (Name → Bool)) := do
   let es ← (words s).mapM parseEnvEntry
-  pure (envOf es)
+  if nodupNames (es.map (·.1)) then pure (envOf es, badOf es) else none
 
 def parseURI (s : String) : Option URI := (s.splitOn "/").mapM parseName
 
@@ -66,14 +87,21 @@ def parseURIs (s : String) : Option (List URI) := (words s).mapM parseURI
 def ar (b : Bool) : String := if b then "accept" else "reject"
 
 /-- every case is evaluated with the trie model (the one the theorems are about) and with the literal tree
-model (array of nodes, FindChild, BFS list, backwards traversal); they must agree -/
-def accBoth (env : Env) (root : Name) (us : List URI) : Option Bool :=
-  let a := identifyAccount env root us
-  if a == Tree.identifyAccountT env root us then some a else none
+model (array of nodes, FindChild, one lookup per new node, BFS list, backwards traversal); they must agree.
+Without unreadable names the two functions are `identifyAccount` / `identifyAccountT` (`identifyAccountF` with
+`bad = fun _ => false` is `identifyAccount` by definition). -/
+def accBoth (envb : Env × (Name → Bool)) (root : Name) (us : List URI) : Option Bool :=
+  let (env, bad) := envb
+  let a := identifyAccountF bad env root us
+  if a == Tree.identifyAccountTF bad env root us then some a else none
 
-def methBoth (env : Env) (rule : Option Rule) (us : List URI) : Option Bool :=
-  let a := checkMethodPerm env rule us
-  if a == Tree.checkMethodPermT env rule us then some a else none
+def methBoth (envb : Env × (Name → Bool)) (rule : PR) (us : List URI) : Option Bool :=
+  let (env, bad) := envb
+  let (badRule, rule) := match rule with
+    | .err => (true, none)
+    | .rule r => (false, r)
+  let a := checkMethodPermF bad badRule env rule us
+  if a == Tree.checkMethodPermTF bad badRule env rule us then some a else none
 
 def arO : Option Bool → String
   | some b => ar b
@@ -119,6 +147,196 @@ def parseWrite (s : String) : Option Write :=
       | _ => none
     | _ => none
 
+
+/-! ### end to end: `vtx` lines (format: go/cmd/acl/e2e.go) -/
+
+def nameInRange : Name → Bool
+  | .key n => n < 5
+  | .acct n => n < 4
+
+def ruleNames : Option Rule → List Name
+  | none => []
+  | some (.thr ms _) => ms.map (·.1)
+  | some (.sets ss) => ss.flatten
+
+inductive EnvE where
+  | rule (r : Rule)
+  | broken
+
+def parseEnvE (s : String) : Option (Name × EnvE) :=
+  match s.splitOn "=" with
+  | n :: rest@(_ :: _) =>
+    let v := "=".intercalate rest
+    match parseName n with
+    | some (.acct a) =>
+      if a ≥ 4 then none
+      else if v == "X" then some (.acct a, .broken)
+      else match parseRule0 v with
+        | some (some r) => if (ruleNames (some r)).all nameInRange then some (.acct a, .rule r) else none
+        | _ => none
+    | _ => none
+  | _ => none
+
+def parseContract (c : String) : Option Nat :=
+  match c.toList with
+  | ['c', d] => if d.isDigit && d.toNat - '0'.toNat < 4 then some (d.toNat - '0'.toNat) else none
+  | _ => none
+
+def parseOwnerE (s : String) : Option (Nat × Name) :=
+  match s.splitOn "=" with
+  | [c, n] => do
+    let c ← parseContract c
+    match parseName n with
+    | some (.acct a) => if a < 4 then some (c, .acct a) else none
+    | _ => none
+  | _ => none
+
+inductive Pend where
+  | acct (a : Name)
+  | owner (c : Nat)
+  | meth
+deriving DecidableEq
+
+def parsePend (s : String) : Option Pend :=
+  match s.splitOn "=" with
+  | n :: rest@(_ :: _) =>
+    let v := "=".intercalate rest
+    let okRule : Bool := match parseRule0 v with
+      | some (some r) => (ruleNames (some r)).all nameInRange
+      | _ => false
+    if n == "m" then (if okRule then some .meth else none)
+    else match parseContract n with
+      | some c => (parseOwnerE s).map (fun _ => Pend.owner c)
+      | none =>
+        match parseName n with
+        | some (.acct a) => if a < 4 && okRule then some (.acct (.acct a)) else none
+        | _ => none
+  | _ => none
+
+def parseKeySig (s : String) : Option (Option Name) :=
+  if s == "x" then some none
+  else match parseName s with
+    | some (.key k) => if k < 5 then some (some (.key k)) else none
+    | _ => none
+
+def parseAct (s : String) : Option Act :=
+  if s == "K" then some .call
+  else match s.splitOn ":" with
+    | ["A", n] => match parseName n with
+      | some (.acct a) => if a < 4 then some (.setAcl (.acct a)) else none
+      | _ => none
+    | ["N", n] => match parseName n with
+      | some (.acct a) => if a < 4 then some (.newAcc (.acct a)) else none
+      | _ => none
+    | ["M", c] => (parseContract c).map Act.setMethod
+    | _ => none
+
+/-- fault target: the rule of a name, or the stored rule of a method (0 = c0.run, 1 = $acl.SetAccountAcl,
+2 = $acl.NewAccount, 3 = $acl.SetMethodAcl) -/
+inductive Target where
+  | name (n : Name)
+  | meth (k : Nat)
+deriving DecidableEq
+
+inductive FaultE where
+  | none
+  | read (storage : Bool) (target : Target)  -- io (storage = true) / rd: the key is unreadable
+  | evict (target : Target)
+
+def parseTarget (s : String) : Option Target :=
+  if s == "m" then some (.meth 0)
+  else if s == "ma" then some (.meth 1)
+  else if s == "mn" then some (.meth 2)
+  else if s == "mm" then some (.meth 3)
+  else match parseName s with
+    | some n => if nameInRange n then some (.name n) else none
+    | none => none
+
+def methKind : Act → Nat
+  | .call => 0
+  | .setAcl _ => 1
+  | .newAcc _ => 2
+  | .setMethod _ => 3
+
+/-- what a client can pre-execute: SetAccountAcl on a stored, parsable account; NewAccount on a name not yet taken
+(a NewAccount earlier in the same transaction counts) -/
+def preExecutable (stored broken : Name → Bool) : List Act → List Name → Bool
+  | [], _ => true
+  | .setAcl a :: rest, created =>
+    (stored a || created.contains a) && !broken a && preExecutable stored broken rest created
+  | .newAcc a :: rest, created =>
+    !(stored a || created.contains a) && preExecutable stored broken rest (a :: created)
+  | _ :: rest, created => preExecutable stored broken rest created
+
+def parseFault (s : String) : Option FaultE :=
+  if s == "-" then some .none
+  else match s.splitOn ":" with
+    | [k, t] =>
+      if k == "io" then (parseTarget t).map (FaultE.read true)
+      else if k == "rd0" || k == "rd1" || k == "rd2" || k == "rd3" then (parseTarget t).map (FaultE.read false)
+      else if k == "ev" then (parseTarget t).map FaultE.evict
+      else none
+    | _ => none
+
+def vtx (envS mruleS ownersS pendS faultS iniS isigS usS usigS inputsS actS : String) : Option String := do
+  let es ← (words envS).mapM parseEnvE
+  if !nodupNames (es.map (·.1)) then none
+  let mrule ← parseRule0 mruleS
+  if !(ruleNames mrule).all nameInRange then none
+  let owners ← (words ownersS).mapM parseOwnerE
+  if !(owners.map (·.1)).Nodup then none
+  let pend ← (words pendS).mapM parsePend
+  let fault ← parseFault faultS
+  let ini ← parseName iniS
+  if !nameInRange ini then none
+  let isig ← (words isigS).mapM parseKeySig
+  let us ← parseURIs usS
+  if !us.flatten.all nameInRange then none
+  let usigW := words usigS
+  if usigW.length ≠ us.length then none
+  let usig ← (us.zip usigW).mapM (fun (u, s) =>
+    if s == "=" then
+      match u.getLast? with
+      | some (.key k) => some (some (Name.key k))
+      | _ => some (some (Name.key 0))
+    else parseKeySig s)
+  let inputs ← (words inputsS).mapM parseName
+  if !inputs.all nameInRange || inputs.length > 4 then none
+  let acts ← if actS == "T" then some [] else (actS.splitOn "+").mapM parseAct
+  if acts.length > 3 then none
+  let env : Env := fun n => match es.find? (fun e => decide (e.1 = n)) with
+    | some (_, .rule r) => some r
+    | _ => none
+  let broken : Name → Bool := fun n => match es.find? (fun e => decide (e.1 = n)) with
+    | some (_, .broken) => true
+    | _ => false
+  let stored : Name → Bool := fun n => (es.any (fun e => decide (e.1 = n))) || pend.contains (.acct n)
+  if !preExecutable stored broken acts [] then none
+  let faultName : Option Name := match fault with
+    | .read _ (.name n) => some n
+    | .evict (.name n) => if pend.contains (.acct n) then some n else none
+    | _ => none
+  let badM : Act → Bool := fun a => match fault with
+    | .read _ (.meth k) => k == methKind a
+    | .evict (.meth k) => k == 0 && methKind a == 0 && pend.contains .meth
+    | _ => false
+  let ch : TxChain := {
+    env := env,
+    owner := fun c => (owners.find? (fun o => o.1 == c)).map (·.2),
+    pendOwner := fun c => pend.contains (.owner c),
+    mrule := mrule,
+    bad := fun n => broken n || faultName == some n,
+    badM := badM }
+  let tx : Tx := { init := ini, isig := isig, auth := us, usig := usig, inputs := inputs, acts := acts }
+  -- Outside access control: a STORAGE read error on a key the transaction itself declares as read makes the last stage
+  -- (verifyTxRWSets, the re-execution over the declared reads) fail. Among the keys a fault can name, the access-control
+  -- stages meet every such key themselves (XCAccount/<a> of SetAccountAcl / NewAccount is looked up for the write)
+  -- except the rule key of c0.run when the transaction overwrites it with SetMethodAcl.
+  let declaredReadBroken : Bool := match fault with
+    | .read true (.meth 0) => acts.contains (.setMethod 0)
+    | _ => false
+  pure (ar (verifyTx ch tx && !declaredReadBroken))
+
 def step (_ : Unit) (line : String) : Unit × String :=
   match line.splitOn "|" with
   | ["ida", root, env, us] =>
@@ -142,10 +360,22 @@ def step (_ : Unit) (line : String) : Unit × String :=
   | ["rw", env, owners, us, ver, ws] =>
     match parseEnv env, (words owners).mapM parseOwner, parseURIs us, (words ver).mapM parseName,
           (words ws).mapM parseWrite with
-    | some env, some owners, some us, some ver, some ws =>
+    | some (env, bad), some owners, some us, some ver, some ws =>
       let owner : Nat → Option Name := fun c => (owners.find? (fun o => o.1 == c)).map (·.2)
-      ((), ar (verifyRWSetPermission ⟨env, owner⟩ true us ws ver))
+      -- the function the theorems are about; with lookup faults its generalisation (equal when nothing is unreadable)
+      let clean := verifyRWSetPermission ⟨env, owner⟩ true us ws ver
+      let g := verifyWritesG (fun a => identifyAccountF bad env a us) owner ws ver
+      let noFault := !(ws.any (fun w => match w with
+        | .account a => (lookupsAcc a us).any bad
+        | .c2a (some a) => (lookupsAcc a us).any bad
+        | .method c => match owner c with
+          | some o => (lookupsAcc o us).any bad
+          | none => false
+        | _ => false))
+      if noFault && g != clean then ((), "model-split") else ((), ar g)
     | _, _, _, _, _ => ((), "bad-op")
+  | ["vtx", env, mrule, owners, pend, fault, ini, isig, us, usig, inputs, act] =>
+    ((), (vtx env mrule owners pend fault ini isig us usig inputs act).getD "bad-op")
   | _ => ((), "bad-op")
 
 def run : IO Unit := loop step ()
